@@ -1,9 +1,10 @@
 //! package `ds` (see CONVENTIONS.md): register components here.
+pub mod tread;
 
 pub fn dispatch(tokens: &[&str]) -> Option<String> {
-    let (c, _args) = tokens.split_first()?;
-    #[allow(clippy::match_single_binding)]
+    let (c, args) = tokens.split_first()?;
     Some(match *c {
+        "tread" => tread::run(args),
         _ => return None,
     })
 }
